@@ -165,9 +165,11 @@ for sz in ['z0', 'e8', 'e3', 'e16', 'e160']:
     add('k2_misc', 'vecdrop_' + sz, 'vecdrop_h::<%s>(%s)' % (TY[sz], d), props=['C03', 'C05', 'C06'], tier=tier_for(sz, {'e8', 'e16'}), cost=40 if sz in SLOW else 6)
 add('k2_misc', 'clear_typed_e8', 'clear_h::<E8>(false, true)', props=['C01'], tier='q', cost=5)
 for sz in ['e8', 'e3', 'z0', 'e16', 'e24']:
-    add('k2_misc', 'clone_' + sz, 'clone_h::<%s>(false)' % TY[sz], props=['C08', 'C03', 'C05', 'C06'], tier=tier_for(sz, {'e8', 'z0'}), cost=60 if sz in SLOW else 10)
-add('k2_misc', 'clone_fixed_e8', 'clone_h::<E8>(true)', props=['C08', 'C11', 'C19'], tier='q', cost=10)
-add('k2_misc', 'clone_fixed_e12', 'clone_h::<E12>(true)', props=['C08', 'C11'], tier='t', cost=60)
+    add('k2_misc', 'clone_' + sz, 'clone_h::<%s>(false, true)' % TY[sz], props=['C08', 'C03', 'C05', 'C06'], tier=tier_for(sz, {'e8', 'z0'}), cost=60 if sz in SLOW else 10)
+add('k2_misc', 'clone_fixed_e8', 'clone_h::<E8>(true, true)', props=['C08', 'C11', 'C19'], tier='q', cost=10)
+add('k2_misc', 'clone_fixed_e12', 'clone_h::<E12>(true, true)', props=['C08', 'C11'], tier='t', cost=60)
+add('k2_misc', 'clone_nodrop_e8', 'clone_h::<E8>(false, false)', props=['C08', 'C03'], tier='q', cost=10)
+add('k2_misc', 'clone_nodrop_e3', 'clone_h::<E3>(false, false)', props=['C08'], tier='t', cost=60)
 add('k2_misc', 'clone_empty_e8', 'clone_empty_h::<E8>(false)', props=['C08'], tier='q', cost=4)
 add('k2_misc', 'clone_empty_in_e8', 'clone_empty_h::<E8>(true)', props=['C08', 'C19'], tier='q', cost=4)
 add('k2_misc', 'clone_empty_in_e3', 'clone_empty_h::<E3>(true)', props=['C08'], tier='t', cost=10)
@@ -176,6 +178,9 @@ for sz in ['e8', 'z0', 'e12']:
     add('k2_misc', 'reserve_exact_' + sz, 'reserve_h::<%s>(true)' % TY[sz], props=['C10'], tier=tier_for(sz, {'e8'}), cost=60 if sz in SLOW else 10)
     add('k2_misc', 'shrink_to_' + sz, 'shrink_h::<%s>(false)' % TY[sz], props=['C10', 'C05'], tier=tier_for(sz, {'e8', 'z0'}), cost=60 if sz in SLOW else 10)
     add('k2_misc', 'shrink_to_fit_' + sz, 'shrink_h::<%s>(true)' % TY[sz], props=['C10'], tier=tier_for(sz, {'e8'}), cost=60 if sz in SLOW else 10)
+for nm, ty, ex in [('reserve_overflow_e8', 'E8', 'false'), ('reserve_exact_overflow_e8', 'E8', 'true'), ('reserve_overflow_z0', 'Z0', 'false'), ('reserve_exact_overflow_z0', 'Z0', 'true')]:
+    add('k2_misc', nm, 'reserve_overflow_h::<%s>(%s)' % (ty, ex), props=['C10'], tier='q', kind='panic', attrs=['#[kani::should_panic]'],
+        allow=[r'capacity overflow', r'core::option::expect_failed', r'Option::<.*>::expect'], cost=5)
 add('k2_misc', 'with_capacity_e8', 'with_capacity_h::<E8>()', props=['C10', 'C05'], tier='q', cost=3)
 add('k2_misc', 'with_capacity_z0', 'with_capacity_h::<Z0>()', props=['C10'], tier='q', cost=3)
 add('k2_misc', 'new_in_e8', 'new_in_h::<E8>()', props=['C05', 'C04'], tier='q', cost=3)
@@ -328,7 +333,7 @@ add('t_sendsync', 't_vectors_noalloc', 't_vectors_h()', props=['C15'], tier='t',
 # bounded stand-ins: the two per-element user-code loops; K3 real-memory cross-checks
 BL = 'len <= 8 elements, real memory, loop unwound (the loop calls user code: no loop contract can frame it in Kani 0.68)'
 add('k1_loops', 'clone_fn_0', 'clone_fn_h::<0>()', props=['C08', 'C03', 'C09'], tier='q', kind='bounded', bound=BL, attrs=['#[kani::unwind(10)]'], flags=['nolc'], cost=15, macro='p')
-add('k1_loops', 'drop_closure_0', 'drop_closure_h::<0>()', props=['C03'], tier='t', kind='bounded', bound=BL, attrs=['#[kani::unwind(10)]'], flags=['nolc'], cost=15, macro='p')
+add('k1_loops', 'drop_closure_0', 'drop_closure_h::<0>()', props=['C03'], tier='q', kind='bounded', bound=BL, attrs=['#[kani::unwind(10)]'], flags=['nolc'], cost=15, macro='p')
 for n in (1, 3, 8, 24):
     add('k1_loops', 'drop_closure_%d' % n, 'drop_closure_h::<%d>()' % n, props=['C03', 'C05'], tier='q' if n in (3, 8) else 't', kind='bounded', bound=BL,
         attrs=['#[kani::unwind(10)]'], flags=['nolc'], cost=15, macro='p')
